@@ -1,4 +1,5 @@
 import Jp.Lemmas.Bridge
+import Jp.Lemmas.Toml
 /-
   C09 — JSON and TOML backends, and resolve vs resolve_mut, behave identically.
   The model is parametric in the backend (it only selects what deleting the root leaves behind), so
@@ -6,6 +7,9 @@ import Jp.Lemmas.Bridge
   copies both follow this one model is what the correspondence run (all six walks on the same lines)
   checks. What is proved here: `resolve_mut` (written with the shared `parse_index` helper in the json
   copy) reaches the same node as `resolve`, and writing through it is a `setAt` at that node.
+  The toml copies are also modelled separately (`Jp.Model.Toml`, mirroring `mod toml` of resolve.rs,
+  assign.rs, delete.rs); the `toml_*_eq` theorems at the end prove them equal to the json copies for
+  every input, so "JSON = TOML" is a theorem about two written-out models, not a by-construction fact.
 -/
 namespace Jp.C09
 open Jp Jp.Spec
@@ -109,6 +113,7 @@ theorem rsplitOnce_slash_cons (r : Bytes) : rsplitOnce 47 (47 :: r) ≠ none := 
 -- OBLIGATIONS
 -- resolveMut_eq_resolve write_then_read write_frame write_err_unchanged delete_backend_independent
 -- ops_backend_independent ancestors_keep_shape
+-- toml_resolve_eq toml_resolveMut_eq toml_assign_eq toml_delete_eq toml_write_eq
 
 /-- same success, same node, same error with the same kind, position, offset and payload -/
 theorem resolveMut_eq_resolve (D : Val) (p : Bytes) : resolveMut D p = resolve D p := by
@@ -286,6 +291,39 @@ theorem delete_backend_independent (D : Val) (p : Bytes) (hp : validPtr p = true
 theorem ops_backend_independent (D : Val) (b : Backend) :
     delete b D [] = (rootRepl b, .ok (some D)) := by
   simp [delete, splitBack, rsplitOnce]
+
+/-! ### the separately written toml copies (`Jp.Model.Toml`) against the json copies -/
+
+/-- the separately written toml copy of `Resolve::resolve` gives the same outcome as the json copy:
+    same success with the same node, same error with the same kind, position, offset and payload -/
+theorem toml_resolve_eq (D : Val) (p : Bytes) : Toml.resolve D p = resolve D p :=
+  toml_resolveLoop_eq p D 0 0 []
+
+/-- the separately written toml copy of `ResolveMut::resolve_mut` (inline `to_index` / `for_len`
+    chain) gives the same outcome as the json copy (through `parse_index`): same success with the same
+    node, same error with the same kind, position, offset and payload -/
+theorem toml_resolveMut_eq (D : Val) (p : Bytes) : Toml.resolveMut D p = resolveMut D p :=
+  toml_resolveMutLoop_eq p D 0 0 []
+
+/-- the separately written toml copy of `Assign::assign` (with its own `expand`, `assign_array`,
+    `assign_object`, `assign_scalar`) gives the same outcome as the json copy: same success with the
+    same replaced value, same error with the same kind, position, offset and payload, and the same
+    resulting document on every path -/
+theorem toml_assign_eq (D v : Val) (p : Bytes) : Toml.assign D p v = assign D p v :=
+  toml_assignValue_eq p D v 0 0
+
+/-- the separately written toml copy of `Delete::delete` gives the same outcome as the json copy
+    (same returned value, same resulting document); the one difference is what deleting the root
+    leaves behind, `Table::default().into()` = `rootRepl .toml` -/
+theorem toml_delete_eq (D : Val) (p : Bytes) : Toml.delete D p = delete .toml D p :=
+  toml_delete_eq_aux D p
+
+/-- writing through the toml copy of `resolve_mut` gives the same outcome as through the json copy:
+    same success, same error with the same kind, position, offset and payload, same resulting
+    document -/
+theorem toml_write_eq (D x : Val) (p : Bytes) : Toml.writeThrough D p x = writeThrough D p x := by
+  simp only [Toml.writeThrough, writeThrough, toml_resolveMut_eq]
+  rfl
 
 example : Unrelated [.key [97]] [.key [98], .idx 0] := by
   constructor <;> simp
